@@ -16,3 +16,37 @@ Theorem C08_stopped_frozen : forall c ops, hist_ok ops -> forall p r a, In (TSto
   rs_stopped (r_state p) = true -> r_status r = r_status p /\ (r_obj r = r_obj p \/ r_state r = RSDataDeleted).
 Proof. exact p_stopped_frozen. Qed.
 Print Assumptions C08_stopped_frozen.
+
+(* ---------- Resume continues from the same status ---------- *)
+From WF Require Import model.Routing model.Shard proofs.RunStateProofs proofs.EngineInv proofs.Delivery proofs.DeliveryProps proofs.HandlerFacts.
+
+(* Resume on a Paused run is accepted and writes Running at version + 1 with the same status and object; that write is
+   routed to the status topic of the run's status — the topic of the step consumer / timeout inserter of that status ... *)
+Theorem C08_resume_reannounces : forall r reason, r_state r = RSPaused ->
+  exists r', ctl_update r RSRunning reason = Some r' /\
+    r_state r' = RSRunning /\ r_ver r' = r_ver r + 1 /\ r_status r' = r_status r /\ r_obj r' = r_obj r /\ r_run r' = r_run r /\
+    route_topic r' = TStatus (r_status r).
+Proof.
+  intros r reason H. unfold ctl_update. rewrite H. cbn. eexists. split; [reflexivity|]. cbn. repeat split.
+Qed.
+Print Assumptions C08_resume_reannounces.
+
+(* ... where (∀ histories) it is never stranded: in the outbox, or ahead of the step consumer's committed position, or handled to
+   completion (C01_not_stranded, restated for the write a Resume made) ... *)
+Theorem C08_resumed_run_not_stranded : forall c ops, hist_ok ops ->
+  forall k r s i n,
+  nth_error (w_hist (fst (run_ops c ops))) k = Some r -> r_status r = s -> r_state r = RSRunning ->
+  In (route (N.of_nat k + 1)%N r) (w_outbox (fst (run_ops c ops))) \/
+  exists j e, nth_error (w_log (fst (run_ops c ops))) j = Some e /\ ev_of e (route 0%N r) /\
+              ((get_cursor (fst (run_ops c ops)) (EStep s i n) <= j)%nat \/ shard_skip i n (e_id e) = true \/
+               exists t, In t (snd (run_ops c ops)) /\ step_wit s e t).
+Proof. intros c ops H k r s i n Hk Hs Hr. apply (step_not_stranded c ops H k r s i n Hk Hs). now right. Qed.
+Print Assumptions C08_resumed_run_not_stranded.
+
+(* ... and nothing that completed before the pause is repeated: the announcements of earlier versions are stale for the resumed
+   record and are skipped by the version gate (C04_stale_skip, for every state) *)
+Theorem C08_earlier_events_skipped : forall c inst u st fn n e s r s1,
+  p_lookup (e_run e) s = (Ok (Some r), s1) -> e_ver e < r_ver r ->
+  step_handler c inst u st fn n e s = (Ok tt, s1).
+Proof. exact stale_event_skipped. Qed.
+Print Assumptions C08_earlier_events_skipped.
